@@ -14,7 +14,7 @@ import (
 func init() {
 	register(&Prop{
 		ID:          "C17",
-		Explanation: "PARTIAL claim — decides four structural conditions of faithful proxying, not routing or byte fidelity as behaviour: (1) stores into the request line, host and body of an *http.Request (Method, URL, RequestURI, Host, Body, and fields of the URL reached from a request) occur, in production code, only in pkg/upstream (rewrite, director, unix round-tripper) or on values that are clones/new requests; (2) between the outer handler and the upstream no production code reachable from the pass path parses or consumes the body (ParseForm/FormValue/PostFormValue/ParseMultipartForm/MultipartReader/Body reads) outside the reviewed login endpoints; (3) the registration-order comparator puts a rewrite rule before a plain one only when the other has no rewrite target and otherwise orders by longer path, on every true-returning path; (4) the rewrite query merge only appends rewritten values to the client's query (url.Values.Add), never overwrites or replaces entries. Added during the build: (5) every ResponseWriter wrapper of the module relays WriteHeader/Write to the wrapped writer exactly once with the caller's argument on every path; (6) the upstream-host director is installed only for an explicit pass-host-header=false and is the only writer of Request.Host in pkg/upstream (one reviewed exception: the unix round tripper fills an empty Host).",
+		Explanation: "PARTIAL claim — decides four structural conditions of faithful proxying, not routing or byte fidelity as behaviour: (1) stores into the request line, host and body of an *http.Request (Method, URL, RequestURI, Host, Body, and fields of the URL reached from a request) occur, in production code, only in pkg/upstream (rewrite, director, unix round-tripper) or on values that are clones/new requests; (2) between the outer handler and the upstream no production code reachable from the pass path parses or consumes the body (ParseForm/FormValue/PostFormValue/ParseMultipartForm/MultipartReader/Body reads) outside the reviewed login endpoints; (3) the registration-order comparator puts a rewrite rule before a plain one only when the other has no rewrite target and otherwise orders by longer path, on every true-returning path; (4) the rewrite query merge only appends rewritten values to the client's query (url.Values.Add), never overwrites or replaces entries. Added during the build: (5) every ResponseWriter wrapper of the module relays WriteHeader/Write to the wrapped writer exactly once with the caller's argument on every path; (6) the upstream-host director is installed only for an explicit pass-host-header=false and is the only writer of Request.Host in pkg/upstream (one reviewed exception: the unix round tripper fills an empty Host); (7) the director calls the original director and then sets URL.Opaque to the same request's RequestURI and clears RawQuery, every reverse proxy returned has that director installed, the proxy's own router is NewRouter().UseEncodedPath() and the upstream router uses encoded-path matching exactly when proxyRawPath is set.",
 		NotDecided:  "longest-prefix routing of gorilla/mux over all paths, percent-encoding fidelity through RequestURI/URL.Path/RawPath, response relay by httputil.ReverseProxy, header pass-through: behaviour of third-party routers over all inputs.",
 		Run:         runC17,
 	})
@@ -30,6 +30,8 @@ func runC17(c *Ctx) {
 	r.Rule("R6-pass-host-default", "the upstream-host director is installed only for an explicit pass-host-header=false; it is the only writer of Request.Host in pkg/upstream", 2)
 	runC17R5(c, "R5-response-wrapper")
 	runC17R6(c, "R6-pass-host-default")
+	r.Rule("R7-request-target-verbatim", "the director sends RequestURI verbatim after the original director, every reverse proxy gets it, routers match on the encoded path (upstream router iff proxyRawPath)", 4)
+	runC17R7(c, "R7-request-target-verbatim")
 
 	// ---- R1 ---------------------------------------------------------------------------------
 	rule := "R1-request-writers"
@@ -458,4 +460,149 @@ func runC17R6(c *Ctx, rule string) {
 			c.R.Bad(rule, key, c.pos(ref.In), "Request.Host of a proxied request is rewritten outside the pass-host-header=false director", nil, nil)
 		}
 	}
+}
+
+// runC17R7: the three URL representations are reconciled as the anchors say — the director sends
+// RequestURI verbatim (Opaque), every reverse proxy gets that director, and the routers match on the
+// encoded path (outer mux always, upstream mux exactly when proxyRawPath is set).
+func runC17R7(c *Ctx, rule string) {
+	setDir := c.Fn(rule, "pkg/upstream.setProxyDirector")
+	dir1 := c.Fn(rule, "pkg/upstream.setProxyDirector$1")
+	nrp := c.Fn(rule, "pkg/upstream.newReverseProxy")
+	newProxy := c.Fn(rule, "pkg/upstream.NewProxy")
+	bsm := c.Fn(rule, "(*main.OAuthProxy).buildServeMux")
+	rawF := c.Field(rule, "pkg/apis/options.UpstreamConfig.ProxyRawPath")
+	opaqueF := c.P.Field("net/url.URL.Opaque")
+	rawQueryF := c.P.Field("net/url.URL.RawQuery")
+	reqURIF := c.P.Field("net/http.Request.RequestURI")
+	if setDir == nil || dir1 == nil || nrp == nil || newProxy == nil || bsm == nil || rawF == nil || opaqueF == nil || rawQueryF == nil || reqURIF == nil {
+		return
+	}
+	// (a) the director: original director first, then Opaque = req.RequestURI, RawQuery = ""
+	c.Walk(rule, dir1, func(p *walk.Path) {
+		if _, ok := p.Exit.(*ssa.Return); !ok {
+			return
+		}
+		key := "director|" + fnKey(dir1)
+		req := dir1.Params[0]
+		var calledOrig, opaqueOK, queryOK bool
+		origAt, opaqueAt := -1, -1
+		for i, s := range p.Steps {
+			switch v := s.In.(type) {
+			case *ssa.Call:
+				if !v.Call.IsInvoke() && v.Call.StaticCallee() == nil && len(v.Call.Args) == 1 && p.Resolve(p.StepOp(v.Call.Args[0], s)).V == ssa.Value(req) {
+					calledOrig, origAt = true, i
+				}
+			case *ssa.Store:
+				fa, ok := p.Resolve(p.StepOp(v.Addr, s)).V.(*ssa.FieldAddr)
+				if !ok {
+					continue
+				}
+				switch walk.FieldOf(fa.X.Type(), fa.Field) {
+				case opaqueF:
+					if base, ok := walk.FieldLoadBase(p.Resolve(p.StepOp(v.Val, s)).V, reqURIF); ok && base == ssa.Value(req) {
+						opaqueOK, opaqueAt = true, i
+					}
+				case rawQueryF:
+					if k, ok := ConstString(p.Resolve(p.StepOp(v.Val, s)).V); ok && k == "" {
+						queryOK = true
+					}
+				}
+			}
+		}
+		if calledOrig && opaqueOK && queryOK && origAt < opaqueAt {
+			c.ok(rule, key, p.Exit, "director(req); req.URL.Opaque = req.RequestURI; req.URL.RawQuery = \"\"")
+		} else {
+			c.bad(rule, key, p.Exit, sprintf("the proxy director no longer sends the client's request target verbatim (original director called first: %v, Opaque = RequestURI of the same request: %v, RawQuery cleared: %v): percent-encoded paths or queries reach the upstream changed", calledOrig && (!opaqueOK || origAt < opaqueAt), opaqueOK, queryOK), p, p.End())
+		}
+	})
+	// (b) every reverse proxy built gets that director
+	c.Walk(rule, nrp, func(p *walk.Path) {
+		rv, ok := p.ReturnDV(0)
+		if !ok || DefinitelyNil(p, rv, p.End()) {
+			return
+		}
+		key := "director-installed|" + fnKey(nrp)
+		if r := p.Resolve(rv); true {
+			if mi, ok := r.V.(*ssa.MakeInterface); ok {
+				rv = p.Op(mi.X, r)
+			}
+		}
+		okInst := false
+		for _, cl := range p.FindTop(walk.Static(setDir), p.End()) {
+			if p.Same(p.Arg(cl, 0), rv) {
+				okInst = true
+			}
+		}
+		if okInst {
+			c.ok(rule, key, p.Exit, "setProxyDirector(proxy) on the returned proxy")
+		} else {
+			c.bad(rule, key, p.Exit, "a reverse proxy is returned without the verbatim-request-target director", p, p.End())
+		}
+	})
+	// (c) routers match on the encoded path
+	isRouterCall := func(cc *ssa.CallCommon, name string) bool {
+		sc := cc.StaticCallee()
+		return sc != nil && sc.Name() == name && sc.Pkg != nil && sc.Pkg.Pkg.Path() == "github.com/gorilla/mux"
+	}
+	// outer mux: the router every route hangs off is NewRouter().UseEncodedPath()
+	{
+		key := "outer-mux-encoded|" + fnKey(bsm)
+		nNew, nEnc := 0, 0
+		for _, b := range bsm.Blocks {
+			for _, in := range b.Instrs {
+				call, ok := in.(*ssa.Call)
+				if !ok {
+					continue
+				}
+				if isRouterCall(&call.Call, "NewRouter") {
+					nNew++
+					for _, ref := range *call.Referrers() {
+						if c2, ok := ref.(*ssa.Call); ok && isRouterCall(&c2.Call, "UseEncodedPath") && c2.Call.Args[0] == ssa.Value(call) {
+							nEnc++
+						}
+					}
+				}
+			}
+		}
+		if nNew > 0 && nNew == nEnc {
+			c.ok(rule, key, bsm.Blocks[0].Instrs[0], "mux.NewRouter().UseEncodedPath()")
+		} else {
+			c.R.Bad(rule, key, c.P.Pos(bsm.Pos()), "the proxy's router is not switched to encoded-path matching: %2F in a path is decoded before routing and the upstream sees a different path", nil, nil)
+		}
+	}
+	// upstream mux: UseEncodedPath exactly when ProxyRawPath is set
+	c.Walk(rule, newProxy, func(p *walk.Path) {
+		rv, ok := p.ReturnDV(0)
+		if !ok || DefinitelyNil(p, rv, p.End()) {
+			return
+		}
+		key := "upstream-mux-encoded|" + fnKey(newProxy)
+		enc := false
+		for _, cl := range p.Calls() {
+			if isRouterCall(cl.C, "UseEncodedPath") {
+				enc = true
+			}
+		}
+		raw, known := false, false
+		for _, a := range p.Atoms(p.End()) {
+			if !a.IsNil {
+				v := p.Resolve(a.DV).V
+				if _, ok := walk.FieldLoadBase(v, rawF); ok {
+					raw, known = a.Val, true
+				}
+				if f, ok := v.(*ssa.Field); ok && walk.FieldOf(f.X.Type(), f.Field) == rawF {
+					raw, known = a.Val, true
+				}
+			}
+		}
+		switch {
+		case !known:
+			c.bad(rule, key, p.Exit, "NewProxy succeeds on a path that never consulted proxyRawPath", p, p.End())
+		case raw == enc:
+			c.ok(rule, key+sprintf("|raw=%v", raw), p.Exit, "UseEncodedPath() iff proxyRawPath")
+		default:
+			c.bad(rule, key, p.Exit, sprintf("proxyRawPath=%v but the upstream router's encoded-path matching is %v", raw, enc), p, p.End())
+		}
+	})
 }
